@@ -67,8 +67,8 @@ Definition since_step {A T} `{Num T} (eqb : A -> A -> bool) (st : option (A * T)
   match st with
   | Some (last, count) =>
       if eqb last n then let c := nadd count (nofZ 1) in (Some (last, c), c)
-      else (Some (n, nzero), nzero)
-  | None => (Some (n, nzero), nzero)
+      else (Some (n, nofZ 0), nofZ 0)
+  | None => (Some (n, nofZ 0), nofZ 0)
   end.
 Definition s_since {A T} `{Num T} (eqb : A -> A -> bool) (l : list A) : list T :=
   s_mapst (since_step eqb) None l.
